@@ -63,6 +63,13 @@ def _shrink(x, limit=30000):
 class Check:
     def __init__(self, pid, tier, seed, level="exploration"):
         self.pid, self.tier, self.seed, self.level = pid, tier, seed, level
+        try:
+            # the evidence level is the level claimed in the manifest
+            for c in json.load(open(os.path.join(VERIF, "MANIFEST.json")))["checks"]:
+                if c["property_id"] == pid:
+                    self.level = c["level_claimed"]["category"]
+        except Exception:
+            pass
         self.t0 = time.time()
         self.violations = {}       # key -> (summary, case)
         self.known = load_known(pid)
